@@ -21,6 +21,7 @@ open Sentinel.LA Sentinel.Entry
 structure PEnt where
   ctx : Nat
   exited : Bool
+  isNil : Bool := false      -- `api.Entry` returned a block error and no entry
 deriving DecidableEq, Repr
 
 structure PSt where
@@ -78,7 +79,7 @@ def apiEntry (fix : Bool) (p : PSt) (t : Nat) (e : EntryOp) (pick : Nat) : PSt :
     let p2 := (p1.withCore r.1)
     let p3 := { p2 with store := p2.store.set i r.2.1 }
     match r.2.2 with
-    | some .block => poolPut { p3 with ents := (e.id, { ctx := i, exited := true }) :: p3.ents } i
+    | some .block => poolPut { p3 with ents := (e.id, { ctx := i, exited := true, isNil := true }) :: p3.ents } i
     | _ => { p3 with ents := (e.id, { ctx := i, exited := false }) :: p3.ents }
 
 def apiTrace (p : PSt) (id : Nat) (err : Option String) : PSt :=
@@ -101,6 +102,12 @@ def apiExit (p : PSt) (t : Nat) (id : Nat) (err : Option String) : PSt :=
     let p1 := { (p.withCore s1) with store := p.store.set pe.ctx c1 }
     poolPut { p1 with ents := (id, { pe with exited := true }) :: p1.ents } pe.ctx
 
+/-- `SetError` as it was before `89ee7f5`: no look at `exited`, the write goes through the stale pointer -/
+def apiTraceUnguarded (p : PSt) (id : Nat) (err : Option String) : PSt :=
+  match findP p.ents id, err with
+  | some pe, some x => { p with store := p.store.set pe.ctx { p.store.getD pe.ctx freshCtx with err := some x } }
+  | _, _ => p
+
 /-- an op together with the pool's choice (only `entry` consults the pool) -/
 def step (fix : Bool) (p : PSt) (x : TOp) (pick : Nat) : PSt :=
   match x.2 with
@@ -118,6 +125,12 @@ def runR (fix : Bool) (t0 : Nat) : List (TOp × Nat) → PSt
 def nodeOf (p : PSt) : Key → Option Node
   | none => some p.inb
   | some r => findN p.nodes r
+
+/-- what `api.Entry` returned: `some true` = an entry, `some false` = a block error -/
+def obsEntered (p : PSt) (id : Nat) : Option Bool := (findP p.ents id).map fun pe => !pe.isNil
+
+def obsWindow (p : PSt) (k : Key) (Iv now : Nat) : Option Bucket := (nodeOf p k).map fun n => viewSum n.arr Iv now
+def obsConc (p : PSt) (k : Key) : Option Int := (nodeOf p k).map (·.conc)
 
 /-- `entry.Context().Err()` / `.Input.Args` of a live entry -/
 def obsCtx (p : PSt) (id : Nat) : Option (Option String × List String) :=
